@@ -8,4 +8,4 @@ Definition holds (c : tcase) (l : list tr) : list string :=
      delayed or reordered packets also means that the bytes are not delivered *)
   filter (has_tag ["C01:"; "C09:unexpected_error_packet"; "C02:retransmission"; "C02:ends_while_waiting"]%string)
          (monitor c l).
-Definition entry := tftp_entry holds proj_client_packets.
+Definition entry := tftp_entry validb holds proj_client_packets.
